@@ -115,7 +115,8 @@ func getValuesByName(identName string, data any) (out any, err error) {
 				fev = fev.Elem()
 			}
 
-			if k := fev.Kind(); !(k == reflect.Struct || k == reflect.Map) {
+			// a decimal.Decimal is a struct to reflect but a number to mpath
+			if k := fev.Kind(); !(k == reflect.Struct || k == reflect.Map) || fev.Type() == reflect.TypeOf(decimal.Decimal{}) {
 				return nil, ErrKeyNotFound
 			}
 
